@@ -253,7 +253,7 @@ class H5SliceData(Dataset):
             curr_data = data[key][slice_no]
         else:
             # This can be useful for getting stacks of slices.
-            num_slices = self.get_num_slices(filename)
+            num_slices = data[key].shape[0]
             curr_data = data[key][
                 max(0, slice_no - self.kspace_context) : min(slice_no + self.kspace_context + 1, num_slices),
             ]
